@@ -16,6 +16,10 @@ public:
 
     static Epoch get_epoch() { return epoch_.load(std::memory_order_acquire); }
 
+#ifdef YAKUSHIMA_VERIF
+    static const void* verif_epoch_addr() { return &epoch_; }
+#endif
+
 private:
     /**
      * @todo consider wrap around. Wrap around after 23,397,696,694 days.
